@@ -1,13 +1,499 @@
-import GIV.Model.Proxy
+/-
+  C20 — goproxytest serves exactly the modules stored in its directory.
+
+  Model: GIV.Model.Proxy (handler, readModList, readArchive, codecs), constants and deciding
+  expressions from GIV.Gen.Proxy (regenerated from /repo on every check).  The theorems are stated
+  with the property's own literals ("/mod/", "/@v/", ".info", '.', '@', …) and proved from the
+  generated definitions, so a change of the source breaks them by name.
+
+  Partial: HTTP transport, zip encoding, JSON and txtar parsing are outside the model (`Ext`,
+  `Response.zip` is the ordered member list); the theorems are about routing and selection.
+-/
+import GIV.Lemmas.ProxySpec
 namespace GIV.C20
 open GIV GIV.Proxy
 
-/-- URLs outside `/mod/` are not found. -/
-theorem outside_prefix_404 (x : Ext) (ml : List ModVer) (st : Store) (who : Bytes → Option (Bytes × Bytes))
-    (url : Bytes) (h : hasPrefix Gen.Proxy.urlPrefix url = false) : handler x ml st who url = .notFound := by
-  simp [handler, h]
+/-! The vocabulary of the statements (`url`, `Stored`, `DotFile`, `ValidWho`) is defined in GIV.Lemmas.ProxySpec. -/
 
-example : handler ⟨fun _ => [], fun _ => []⟩ [] [] (fun _ => none) (lit "/x/example.com/a/@v/list") = .notFound :=
-  outside_prefix_404 _ _ _ _ _ (by decide +kernel)
+/-- a tiny directory used by the non-vacuity examples: `example.com_!foo_v1.0.0.txt` (module
+`example.com/Foo@v1.0.0`) whose parsed archive is `.info`, `.mod`, `go.mod`, `.hidden`, `sub/.keep` -/
+def exFiles : List File :=
+  [⟨lit ".info", lit "{}"⟩, ⟨lit ".mod", lit "module example.com/Foo\n"⟩, ⟨lit "go.mod", lit "m"⟩,
+   ⟨lit ".hidden", lit "h"⟩, ⟨lit "sub/.keep", []⟩]
+def exExt : Ext := ⟨fun _ => exFiles, fun _ => []⟩
+def exStore : Store := [(lit "example.com_!foo_v1.0.0.txt", .file (lit "(txtar)")), (lit "README", .file [])]
+def exMl : List ModVer := [⟨lit "example.com/Foo", lit "v1.0.0"⟩]
+
+example : readModList exStore = some exMl := by decide +kernel
+
+/-! ### 1. the codecs -/
+
+/-- `UnescapePath (EscapePath p) = p` and `UnescapeVersion (EscapeVersion v) = v`, whenever escaping
+succeeds (that is: for valid paths / versions), and conversely. -/
+theorem unescape_escape :
+    (∀ p e, escapePath p = some e → unescapePath e = some p) ∧
+    (∀ v e, escapeVersion v = some e → unescapeVersion e = some v) ∧
+    (∀ p e, unescapePath e = some p → escapePath p = some e) ∧
+    (∀ v e, unescapeVersion e = some v → escapeVersion v = some e) :=
+  ⟨fun _ _ => unescapePath_escapePath, fun _ _ => unescapeVersion_escapeVersion,
+   fun _ _ => escapePath_unescapePath, fun _ _ => escapeVersion_unescapeVersion⟩
+
+example : escapePath (lit "example.com/Foo") = some (lit "example.com/!foo") := by decide +kernel
+example : unescapePath (lit "example.com/!foo") = some (lit "example.com/Foo") := by decide +kernel
+example : escapeVersion (lit "v1.0.0-RC1") = some (lit "v1.0.0-!r!c1") := by decide +kernel
+example : unescapePath (lit "example.com/Foo") = none := by decide +kernel
+
+/-- escaping is injective: two paths (versions) with the same escaped form are equal -/
+theorem escape_injective :
+    (∀ p q e, escapePath p = some e → escapePath q = some e → p = q) ∧
+    (∀ v w e, escapeVersion v = some e → escapeVersion w = some e → v = w) := by
+  constructor
+  · intro p q e hp hq
+    exact escapeString_injective (escapePath_eq_some.mp hp).2 (escapePath_eq_some.mp hq).2
+  · intro v w e hv hw
+    exact escapeString_injective (escapeVersion_eq_some.mp hv).2 (escapeVersion_eq_some.mp hw).2
+
+example : escapePath (lit "example.com/Foo") ≠ escapePath (lit "example.com/foo") := by decide +kernel
+
+/-! ### 2. file names -/
+
+/-- **name round trip**: every recorded module version was decoded from a directory entry (an archive
+`base.txt` / `base.txtar` or a directory `base`), and `readArchive` maps it back to exactly that
+`base`. -/
+theorem name_roundtrip {st : Store} {ml : List ModVer} (hml : readModList st = some ml) (hns : NoSlash st)
+    {m : ModVer} (hm : m ∈ ml) :
+    ∃ base, archiveBase m.path m.version = some base ∧ decodeBase base = some (some m) ∧
+      ∃ e ∈ st, entryBase e.1 e.2.isDir = some base :=
+  archiveBase_of_mem hml hns hm
+
+example : archiveBase (lit "example.com/Foo") (lit "v1.0.0") = some (lit "example.com_!foo_v1.0.0") := by decide +kernel
+example : decodeBase (lit "example.com_!foo_v1.0.0") = some (some ⟨lit "example.com/Foo", lit "v1.0.0"⟩) := by
+  decide +kernel
+
+/-- **what is stored**: `readModList` records exactly the pairs decoded from the archive entries; and a
+pair whose path and version contain no `_` (the version starting with `v`) is recorded iff an entry
+with its conventional name `esc(path)[/ ↦ _] _ esc(version)` exists. -/
+theorem modList_exact {st : Store} {ml : List ModVer} (hml : readModList st = some ml) (hns : NoSlash st) :
+    (∀ m, m ∈ ml ↔ ∃ e ∈ st, ∃ base, entryBase e.1 e.2.isDir = some base ∧ decodeBase base = some (some m)) ∧
+    (∀ p v base, archiveBase p v = some base → 95 ∉ p → 95 ∉ v → v.head? = some 118 →
+      (Stored ml p v ↔ ∃ e ∈ st, entryBase e.1 e.2.isDir = some base)) := by
+  refine ⟨mem_readModList hml, ?_⟩
+  intro p v base hb hp hv hh
+  have hd := decodeBase_of_archiveBase hb hp hv hh
+  constructor
+  · intro hm
+    obtain ⟨b, hb1, _, e, he, heb⟩ := archiveBase_of_mem hml hns hm
+    simp only at hb1
+    rw [hb] at hb1
+    exact ⟨e, he, by rw [Option.some.inj hb1]; exact heb⟩
+  · rintro ⟨e, he, hb1⟩
+    exact (mem_readModList hml ⟨p, v⟩).mpr ⟨e, he, base, hb1, hd⟩
+
+example : Stored exMl (lit "example.com/Foo") (lit "v1.0.0") := by decide +kernel
+example : NoSlash exStore := by unfold NoSlash; decide +kernel
+
+/-! ### 3. the archive of a module version -/
+
+/-- **lookup order**: the archive of `p@v` is `base.txtar` if that entry exists, else `base.txt`, else
+the directory `base`; an entry of the wrong kind (a directory called `base.txt`, a regular file
+called `base`) gives no archive and stops the search. -/
+theorem archive_lookup_order (x : Ext) (st : Store) (p v base : Bytes) (hb : archiveBase p v = some base) :
+    readArchive x st p v =
+      match st.lookup (base ++ lit ".txtar") with
+      | some (.file d) => some (x.parseTxtar d)
+      | some (.dir _) => none
+      | none =>
+        match st.lookup (base ++ lit ".txt") with
+        | some (.file d) => some (x.parseTxtar d)
+        | some (.dir _) => none
+        | none =>
+          match st.lookup base with
+          | some (.dir fs) => some (walk fs)
+          | some (.file _) => none
+          | none => none := by
+  have h1 : lit ".txtar" = [46, 116, 120, 116, 97, 114] := by decide +kernel
+  have h2 : lit ".txt" = [46, 116, 120, 116] := by decide +kernel
+  have ho : Gen.Proxy.lookupOrder = [some [46, 116, 120, 116, 97, 114], some [46, 116, 120, 116], none] := rfl
+  unfold readArchive loadArchive
+  rw [hb, ho, h1, h2]
+  simp only [Option.bind_some, loadArchiveFrom]
+  rfl
+
+example : readArchive exExt exStore (lit "example.com/Foo") (lit "v1.0.0") = some exFiles := by decide +kernel
+
+/-- a directory archive consists of exactly the regular files below the directory (each once), named
+by their slash-separated relative paths -/
+theorem walk_perm (fs : List (List Bytes × Bytes)) :
+    (walk fs).Perm (fs.map fun f => ⟨joinSlash f.1, f.2⟩) :=
+  (perm_sortBy _ fs).map _
+
+example : walk [([lit "a", lit "c"], [1]), ([lit "a.b", lit "c"], [2]), ([lit "A"], [3])]
+    = [⟨lit "A", [3]⟩, ⟨lit "a/c", [1]⟩, ⟨lit "a.b/c", [2]⟩] := by decide +kernel
+
+/-! ### 4. what the handler serves -/
+
+/-- **.info and .mod**: for a stored module version the response to `/mod/<esc p>/@v/<esc v>.info`
+(`.mod`) is, byte for byte, the data of the archive's `.info` (`.mod`) file — whatever the state of
+the caches. -/
+theorem serves_info_mod (x : Ext) {st : Store} {ml : List ModVer} (who : Bytes → Option (Bytes × Bytes))
+    (hml : readModList st = some ml) {p v ep ev : Bytes} (hs : Stored ml p v)
+    (hep : escapePath p = some ep) (hev : escapeVersion v = some ev)
+    {files : List File} (ha : readArchive x st p v = some files)
+    (ext : Bytes) (hext : ext = lit "info" ∨ ext = lit "mod")
+    {f : File} (hf : files.find? (fun g => g.name = lit "." ++ ext) = some f) :
+    handler x ml st who (url ep (ev ++ lit "." ++ ext)) = .bytes f.data := by
+  have hdot : lit "." = [46] := by decide +kernel
+  have hi : lit "info" = [105, 110, 102, 111] := by decide +kernel
+  have hm : lit "mod" = [109, 111, 100] := by decide +kernel
+  have hext' : ext = [105, 110, 102, 111] ∨ ext = [109, 111, 100] := by rw [hi, hm] at hext; exact hext
+  have hnodot : (46 : UInt8) ∉ ext := by rcases hext' with rfl | rfl <;> decide
+  have hfe : Gen.Proxy.fileExts.contains ext = true := by rcases hext' with rfl | rfl <;> decide
+  have hw : Gen.Proxy.wantPrefix = [46] := rfl
+  rw [hdot] at hf
+  rw [url_eq, hdot]
+  unfold handler
+  have hfile : [47, 109, 111, 100, 47] ++ ep ++ [47, 64, 118, 47] ++ (ev ++ [46] ++ ext)
+      = [47, 109, 111, 100, 47] ++ ep ++ [47, 64, 118, 47] ++ (ev ++ 46 :: ext) := by simp
+  rw [hfile, route_canonical ep _ (escapePath_no_at hep)]
+  simp only
+  rw [serveRouted_file x ml st who ext hep hev hnodot, serveFile_of_mem x who hml hs ext]
+  unfold readArchive at ha
+  cases hb : archiveBase p v with
+  | none => simp [hb] at ha
+  | some name =>
+    simp only [hb, Option.bind_some] at ha
+    simp only [ha, hfe, if_true, hw]
+    rw [hf]
+
+example : handler exExt exMl exStore (fun _ => none) (url (lit "example.com/!foo") (lit "v1.0.0" ++ lit "." ++ lit "mod"))
+    = .bytes (lit "module example.com/Foo\n") := by decide +kernel
+
+/-- **.zip**: for a stored module version the response to `/mod/<esc p>/@v/<esc v>.zip` is the zip whose
+members are exactly the archive's files whose names do not start with a dot, in archive order, each
+named `p@v/<name>` with identical contents — for every valid state of the zip cache, i.e. whichever
+request (of the same or any other module) ran or races first.  (Names longer than 65535 bytes make
+`zip.Writer.Create` fail; they are excluded by `hlen`.) -/
+theorem serves_zip (x : Ext) {st : Store} {ml : List ModVer} {who : Bytes → Option (Bytes × Bytes)}
+    (hml : readModList st = some ml) (hns : NoSlash st) (hwho : ValidWho ml who)
+    {p v ep ev : Bytes} (hs : Stored ml p v)
+    (hep : escapePath p = some ep) (hev : escapeVersion v = some ev)
+    {files : List File} (ha : readArchive x st p v = some files)
+    (hlen : ∀ f ∈ files, (p ++ lit "@" ++ v ++ lit "/" ++ f.name).length ≤ 65535) :
+    handler x ml st who (url ep (ev ++ lit ".zip")) =
+      .zip ((files.filter fun f => ¬ DotFile f.name).map fun f => ⟨p ++ lit "@" ++ v ++ lit "/" ++ f.name, f.data⟩) := by
+  have hz : lit ".zip" = 46 :: [122, 105, 112] := by decide +kernel
+  have hat : lit "@" = [64] := by decide +kernel
+  have hsl : lit "/" = [47] := by decide +kernel
+  simp only [hat, hsl] at hlen
+  rw [url_eq, hz, hat, hsl]
+  unfold handler
+  rw [route_canonical ep _ (escapePath_no_at hep)]
+  simp only
+  rw [serveRouted_file x ml st who [122, 105, 112] hep hev (by decide), serveFile_of_mem x who hml hs _]
+  unfold readArchive at ha
+  cases hb : archiveBase p v with
+  | none => simp [hb] at ha
+  | some name =>
+    simp only [hb, Option.bind_some] at ha
+    have hfe : Gen.Proxy.fileExts.contains [122, 105, 112] = false := by decide
+    have hze : Gen.Proxy.zipExt = [122, 105, 112] := rfl
+    simp only [ha, hze, hfe, Bool.false_eq_true, ↓reduceIte]
+    -- whoever built the cached zip did so for the same (p, v)
+    have hown : ∀ p' v', who name = some (p', v') → p' = p ∧ v' = v := by
+      intro p' v' hw
+      obtain ⟨hs', hb'⟩ := hwho name p' v' hw
+      have := modVer_of_base_unique hml hns hs' hs hb' hb
+      simpa using this
+    have hmem : zipMembers p v files =
+        (files.filter fun f => ¬ DotFile f.name).map fun f => ⟨p ++ [64] ++ v ++ [47] ++ f.name, f.data⟩ := by
+      unfold zipMembers
+      have h1 : Gen.Proxy.zipSep1 = [64] := rfl
+      have h2 : Gen.Proxy.zipSep2 = [47] := rfl
+      rw [h1, h2]
+      congr 1
+      apply List.filter_congr
+      intro f _
+      rw [hasPrefix_dot]
+      simp
+    have hresp : zipResponse (zipMembers p v files) = .zip (zipMembers p v files) := by
+      unfold zipResponse
+      have : (zipMembers p v files).any (fun f => decide (f.name.length > 65535)) = false := by
+        rw [List.any_eq_false]
+        intro g hg
+        rw [hmem] at hg
+        obtain ⟨f, hf, rfl⟩ := List.mem_map.mp hg
+        have := hlen f (List.mem_filter.mp hf).1
+        simp only [decide_eq_true_eq]
+        omega
+      simp [this]
+    cases hw : who name with
+    | none => simp only; rw [hresp, hmem]
+    | some pv =>
+      obtain ⟨p', v'⟩ := pv
+      obtain ⟨rfl, rfl⟩ := hown p' v' hw
+      simp only; rw [hresp, hmem]
+
+example : handler exExt exMl exStore (fun _ => none) (url (lit "example.com/!foo") (lit "v1.0.0" ++ lit ".zip"))
+    = .zip [⟨lit "example.com/Foo@v1.0.0/go.mod", lit "m"⟩, ⟨lit "example.com/Foo@v1.0.0/sub/.keep", []⟩] := by
+  decide +kernel
+
+/-- **list**: the response to `/mod/<esc p>/@v/list` consists of one line per recorded version of `p`
+that is not a pseudo-version and passes `module.Check`, in directory order, and nothing else; it is 404
+when there is none. -/
+theorem list_exact (x : Ext) (ml : List ModVer) (st : Store) (who : Bytes → Option (Bytes × Bytes))
+    {p ep : Bytes} (hep : escapePath p = some ep) :
+    handler x ml st who (url ep (lit "list")) =
+      (let vs := (ml.filter fun m => m.path = p && !isPseudo m.version && check m.path m.version).map (·.version)
+       if vs = [] then .notFound else .bytes (vs.flatMap fun v => v ++ lit "\n")) ∧
+    ∀ v, v ∈ listVersions ml p ↔ Stored ml p v ∧ isPseudo v = false ∧ check p v = true := by
+  have hl : lit "list" = Gen.Proxy.listName := by decide +kernel
+  have hnl : lit "\n" = [10] := by decide +kernel
+  have h1 : Gen.Proxy.listMatchesPath = true := rfl
+  have h2 : Gen.Proxy.listExcludesPseudo = true := rfl
+  have h3 : Gen.Proxy.listRequiresCheck = true := rfl
+  constructor
+  · rw [url_eq, hl, hnl]
+    unfold handler
+    rw [route_canonical ep _ (escapePath_no_at hep)]
+    simp only
+    unfold serveRouted
+    rw [unescapePath_escapePath hep]
+    simp only [if_true]
+    unfold listResponse listVersions
+    simp only [h1, h2, h3, Bool.not_true, Bool.false_or, List.isEmpty_iff]
+  · exact mem_listVersions ml p
+
+example : handler exExt exMl exStore (fun _ => none) (url (lit "example.com/!foo") (lit "list")) = .bytes (lit "v1.0.0\n") := by
+  decide +kernel
+example : listVersions [⟨lit "example.com/a", lit "v1.0.0"⟩, ⟨lit "example.com/a", lit "v2.0.0"⟩,
+    ⟨lit "example.com/a", lit "v0.0.0-20190101000000-abcdef123456"⟩, ⟨lit "example.com/b", lit "v1.1.0"⟩] (lit "example.com/a")
+    = [lit "v1.0.0"] := by decide +kernel
+
+/-! ### 5. nothing else is served -/
+
+/-- the version the commit-hash loop resolves to is the requested one or a recorded version of the path -/
+theorem resolve_mem (x : Ext) (st : Store) (ml : List ModVer) (p v0 : Bytes) :
+    resolve x st ml p v0 = v0 ∨ Stored ml p (resolve x st ml p v0) := by
+  have inv : ∀ (l : List ModVer) (best : Bytes), (∀ m ∈ l, m ∈ ml) → (best = [] ∨ Stored ml p best) →
+      (l.foldl (hashStep x st p v0) best = [] ∨ Stored ml p (l.foldl (hashStep x st p v0) best)) := by
+    intro l
+    induction l with
+    | nil => intro best _ hb; simpa using hb
+    | cons m l ih =>
+      intro best hl hb
+      rw [List.foldl_cons]
+      apply ih _ (fun m' hm' => hl m' (List.mem_cons_of_mem _ hm'))
+      rcases hashStep_cases x st p v0 best m with h | ⟨h, hp⟩
+      · rw [h]; exact hb
+      · right
+        rw [h]
+        have hm := hl m (List.mem_cons_self ..)
+        obtain ⟨mp, mv⟩ := m
+        simp only at hp ⊢
+        rw [← hp]
+        exact hm
+  unfold resolve
+  by_cases hh : allHex v0 = true
+  · simp only [hh, if_true]
+    rcases inv ml [] (fun _ h => h) (Or.inl rfl) with h | h
+    · simp [h]
+    · by_cases hb : List.foldl (hashStep x st p v0) [] ml = []
+      · simp [hb]
+      · simp only [ne_eq, hb, not_false_eq_true, if_true]
+        exact Or.inr h
+  · simp [hh]
+
+/-- with no `Short` recorded every commit hash resolves to the highest stored version -/
+example : resolve exExt exStore exMl (lit "example.com/Foo") (lit "abc123") = lit "v1.0.0" := by decide +kernel
+
+/-- **anything not stored yields 404**: a response other than 404 is only given to a URL of the form
+`/mod/<enc>/@v/<file>` where `<enc>` unescapes to a path `p` and either `<file>` is `list` and some
+version of `p` is stored, or `<file>` is `<encV>.<ext>`, `<encV>` unescapes to a version `v0`, and the
+version served — `v0` itself unless `v0` is a commit hash (all lower-case hex) — is stored for `p`.
+This is proved from the membership test that `handler` performs before `readArchive`. -/
+theorem not_stored_404 (x : Ext) (ml : List ModVer) (st : Store) (who : Bytes → Option (Bytes × Bytes))
+    (u : Bytes) (h : handler x ml st who u ≠ .notFound) :
+    ∃ enc file p, u = url enc file ∧ unescapePath enc = some p ∧
+      ((file = lit "list" ∧ ∃ v, Stored ml p v) ∨
+       (∃ encV ext v0, file = encV ++ lit "." ++ ext ∧ unescapeVersion encV = some v0 ∧
+          Stored ml p (resolve x st ml p v0) ∧ (allHex v0 = false → Stored ml p v0))) := by
+  have hl : lit "list" = Gen.Proxy.listName := by decide +kernel
+  have hdot : lit "." = [46] := by decide +kernel
+  unfold handler at h
+  cases hr : route u with
+  | none => simp [hr] at h
+  | some ef =>
+    obtain ⟨enc, file⟩ := ef
+    simp only [hr] at h
+    have hu := route_spec hr
+    unfold serveRouted at h
+    cases hp : unescapePath enc with
+    | none => simp [hp] at h
+    | some p =>
+      simp only [hp] at h
+      refine ⟨enc, file, p, by rw [url_eq]; exact hu, hp, ?_⟩
+      by_cases hlist : file = Gen.Proxy.listName
+      · left
+        simp only [hlist, if_true] at h
+        refine ⟨by rw [hl]; exact hlist, ?_⟩
+        unfold listResponse at h
+        cases hv : listVersions ml p with
+        | nil => simp [hv] at h
+        | cons v vs =>
+          have : v ∈ listVersions ml p := by simp [hv]
+          exact ⟨v, ((mem_listVersions ml p v).mp this).1⟩
+      · right
+        simp only [hlist, if_false] at h
+        cases hs : splitExt file with
+        | none => simp [hs] at h
+        | some ee =>
+          obtain ⟨encV, ext⟩ := ee
+          simp only [hs] at h
+          cases hv : unescapeVersion encV with
+          | none => simp [hv] at h
+          | some v0 =>
+            simp only [hv] at h
+            refine ⟨encV, ext, v0, by rw [hdot, splitExt_spec hs]; simp, hv, ?_⟩
+            unfold serveFile at h
+            have hck : Gen.Proxy.handlerChecksModList = true := rfl
+            by_cases hc : ml.contains (⟨p, resolve x st ml p v0⟩ : ModVer) = true
+            · have hm : Stored ml p (resolve x st ml p v0) := List.contains_iff_mem.mp hc
+              refine ⟨hm, ?_⟩
+              intro hh
+              have : resolve x st ml p v0 = v0 := by simp [resolve, hh]
+              rw [this] at hm
+              exact hm
+            · have hc' : ml.contains (⟨p, resolve x st ml p v0⟩ : ModVer) = false := by simpa using hc
+              simp only [hck, hc', Bool.not_false, Bool.and_self, if_true] at h
+              exact absurd rfl h
+
+example : handler exExt exMl exStore (fun _ => none) (url (lit "example.com/!foo") (lit "v1.0.1.info")) = .notFound := by
+  decide +kernel
+/-- the aliasing request of the defect fixed by 3b75cd6: `example.com` + version `!foo_v1.0.0` has the
+same archive name as the stored module, and is not served -/
+example : archiveBase (lit "example.com") (lit "Foo_v1.0.0") = archiveBase (lit "example.com/Foo") (lit "v1.0.0") ∧
+    handler exExt exMl exStore (fun _ => none) (url (lit "example.com") (lit "!foo_v1.0.0.zip")) = .notFound := by
+  decide +kernel
+
+/-- the same in the direct form: a well-formed request for a version (not a commit hash) that is not
+stored is answered 404, whatever the extension and whatever files exist in the directory -/
+theorem unstored_version_404 (x : Ext) (ml : List ModVer) (st : Store) (who : Bytes → Option (Bytes × Bytes))
+    {p v ep ev : Bytes} (hep : escapePath p = some ep) (hev : escapeVersion v = some ev)
+    (hhex : allHex v = false) (hns : ¬ Stored ml p v) (ext : Bytes) (hext : (46 : UInt8) ∉ ext) :
+    handler x ml st who (url ep (ev ++ lit "." ++ ext)) = .notFound := by
+  have hdot : lit "." = [46] := by decide +kernel
+  rw [url_eq, hdot]
+  unfold handler
+  have hfile : [47, 109, 111, 100, 47] ++ ep ++ [47, 64, 118, 47] ++ (ev ++ [46] ++ ext)
+      = [47, 109, 111, 100, 47] ++ ep ++ [47, 64, 118, 47] ++ (ev ++ 46 :: ext) := by simp
+  rw [hfile, route_canonical ep _ (escapePath_no_at hep)]
+  simp only
+  rw [serveRouted_file x ml st who ext hep hev hext]
+  unfold serveFile
+  have hres : resolve x st ml p v = v := by simp [resolve, hhex]
+  have hck : Gen.Proxy.handlerChecksModList = true := rfl
+  have hc : ml.contains (⟨p, v⟩ : ModVer) = false := by
+    cases h : ml.contains (⟨p, v⟩ : ModVer) with
+    | false => rfl
+    | true => exact absurd (List.contains_iff_mem.mp h) hns
+  simp only [hres, hck, hc, Bool.not_false, Bool.and_self, if_true]
+
+/-- the archive `example.com_!foo_v1.0.0.txt` exists, yet `example.com@Foo_v1.0.0` (same file name) is 404 -/
+example : handler exExt exMl exStore (fun _ => none) (url (lit "example.com") (lit "!foo_v1.0.0" ++ lit "." ++ lit "info")) = .notFound :=
+  unstored_version_404 exExt exMl exStore _ (p := lit "example.com") (v := lit "Foo_v1.0.0") (by decide +kernel) (by decide +kernel)
+    (by decide +kernel) (by decide +kernel) _ (by decide +kernel)
+
+/-! ### 6. concurrency: responses do not depend on the caches -/
+
+/-- **Responses are the same under any number of concurrent requests.**  Given the once-per-key
+semantics of `par.Cache` (`ValidWho`: the cached zip of an archive was produced by the closure of some
+request that passed the membership test for that archive), the response to a request is a function of
+`(modList, directory, URL)` alone: it equals the response of a server whose caches are empty, whatever
+other requests ran before or are racing with it. -/
+theorem response_independent_of_cache (x : Ext) {st : Store} {ml : List ModVer} {who : Bytes → Option (Bytes × Bytes)}
+    (hml : readModList st = some ml) (hns : NoSlash st) (hwho : ValidWho ml who) (u : Bytes) :
+    handler x ml st who u = handler x ml st (fun _ => none) u := by
+  unfold handler
+  cases route u with
+  | none => rfl
+  | some ef =>
+    obtain ⟨enc, file⟩ := ef
+    simp only
+    unfold serveRouted
+    cases unescapePath enc with
+    | none => rfl
+    | some p =>
+      simp only
+      by_cases hl : file = Gen.Proxy.listName
+      · simp [hl]
+      · simp only [hl, if_false]
+        cases splitExt file with
+        | none => rfl
+        | some ee =>
+          obtain ⟨encV, ext⟩ := ee
+          simp only
+          cases unescapeVersion encV with
+          | none => rfl
+          | some v0 => exact serveFile_cache_independent x hml hns hwho p v0 ext
+
+/-- a non-trivial admissible cache state: the zip of the example archive was built by an earlier call -/
+def exWho : Bytes → Option (Bytes × Bytes) := fun n =>
+  if n = lit "example.com_!foo_v1.0.0" then some (lit "example.com/Foo", lit "v1.0.0") else none
+
+example : ValidWho exMl exWho ∧
+    handler exExt exMl exStore exWho (url (lit "example.com/!foo") (lit "v1.0.0.zip"))
+    = handler exExt exMl exStore (fun _ => none) (url (lit "example.com/!foo") (lit "v1.0.0.zip")) := by
+  have hv : ValidWho exMl exWho := by
+    intro name p' v' h
+    unfold exWho at h
+    split at h
+    · simp only [Option.some.injEq, Prod.mk.injEq] at h
+      obtain ⟨rfl, rfl⟩ := h
+      subst name
+      decide +kernel
+    · cases h
+  exact ⟨hv, response_independent_of_cache exExt (by decide +kernel) (by unfold NoSlash; decide +kernel) hv _⟩
+
+/-- **any sequence of requests** against one server (the zip cache filling up as it goes) gets the
+responses a fresh server would give to each request on its own -/
+theorem sequential_run_pure (x : Ext) {st : Store} {ml : List ModVer} (hml : readModList st = some ml) (hns : NoSlash st) :
+    ∀ (urls : List Bytes) (cache : List (Bytes × (Bytes × Bytes))), ValidWho ml (fun n => cache.lookup n) →
+      runSeq x ml st cache urls = urls.map (handler x ml st (fun _ => none)) := by
+  intro urls
+  induction urls with
+  | nil => intro _ _; rfl
+  | cons u rest ih =>
+    intro cache hv
+    unfold runSeq
+    simp only [List.map_cons]
+    rw [response_independent_of_cache x hml hns hv u]
+    congr 1
+    apply ih
+    cases hz : zipKeyOf x ml st u with
+    | none => simpa using hv
+    | some kv =>
+      obtain ⟨name, pv⟩ := kv
+      simp only
+      by_cases hsome : (cache.lookup name).isSome = true
+      · simpa [hsome] using hv
+      · simp only [hsome, Bool.false_eq_true, if_false]
+        intro n p' v' hn
+        simp only [List.lookup_cons] at hn
+        by_cases hnn : (n == name) = true
+        · simp only [hnn] at hn
+          obtain ⟨pp, vv⟩ := pv
+          simp only [Option.some.injEq, Prod.mk.injEq] at hn
+          obtain ⟨rfl, rfl⟩ := hn
+          have := zipKeyOf_valid hz
+          rw [eq_of_beq hnn]
+          exact this
+        · simp only [hnn] at hn
+          exact hv n p' v' hn
+
+example : runSeq exExt exMl exStore []
+    [url (lit "example.com") (lit "!foo_v1.0.0.zip"), url (lit "example.com/!foo") (lit "v1.0.0.zip"), url (lit "example.com/!foo") (lit "v1.0.0.zip")]
+    = [.notFound, .zip [⟨lit "example.com/Foo@v1.0.0/go.mod", lit "m"⟩, ⟨lit "example.com/Foo@v1.0.0/sub/.keep", []⟩],
+       .zip [⟨lit "example.com/Foo@v1.0.0/go.mod", lit "m"⟩, ⟨lit "example.com/Foo@v1.0.0/sub/.keep", []⟩]] := by
+  decide +kernel
 
 end GIV.C20
